@@ -122,3 +122,61 @@ pub fn c15(out: &mut dyn Write, tier: &str, _rng: &mut Rng, st: &mut Stats) {
     }
     let _: HashMap<u8, u8> = HashMap::new();
 }
+
+fn names_table(pf: &ParsedFormula) -> String {
+    pf.vars.iter().map(|v| format!("{}:{}", hex(v.name.as_bytes()), v.id)).collect::<Vec<_>>().join(",")
+}
+
+pub fn c16(out: &mut dyn Write, tier: &str, rng: &mut Rng, st: &mut Stats) {
+    // vertex names: plain identifiers, and ones that look like the generator's own copies
+    let pool = ["a", "b", "c", "d", "v_a", "v_b", "x1", "v_v_a"];
+    let mut cases: Vec<(Vec<(String, String)>, bool, bool)> = Vec::new();
+    // hand-written corner cases first
+    let fixed: Vec<Vec<(&str, &str)>> = vec![
+        vec![("a", "b")], vec![("a", "b"), ("b", "a")], vec![("a", "a")], vec![("a", "b"), ("a", "b")],
+        vec![("a", "b"), ("b", "c"), ("c", "a")], vec![("a", "b"), ("b", "c")], vec![("a", "v_a")],
+        vec![("a", "b"), ("v_a", "b")], vec![("a", "b"), ("b", "a"), ("b", "c"), ("c", "b"), ("a", "c"), ("c", "a")],
+        vec![("a", "b"), ("c", "d")], vec![("v_a", "v_v_a"), ("a", "v_a")],
+    ];
+    for f in &fixed { for u in [false, true] { for a in [false, true] {
+        cases.push((f.iter().map(|(x, y)| (x.to_string(), y.to_string())).collect(), u, a));
+    } } }
+    let n = if tier == "thorough" { 12000 } else { 500 };
+    for _ in 0..n {
+        let k = 2 + rng.below(3) as usize; // 2..4 distinct names in play
+        let mut names: Vec<String> = Vec::new();
+        while names.len() < k { let nm = rng.pick(&pool[..]).to_string(); if !names.contains(&nm) { names.push(nm); } }
+        let m = 1 + rng.below(6) as usize;
+        let edges: Vec<(String, String)> = (0..m).map(|_| (rng.pick(&names[..]).clone(), rng.pick(&names[..]).clone())).collect();
+        cases.push((edges, rng.chance(1, 2), rng.chance(1, 2)));
+    }
+    for (edges, u, a) in cases {
+        let csv: String = edges.iter().map(|(x, y)| format!("{},{}\n", x, y)).collect();
+        let mut args: Vec<String> = Vec::new();
+        if u { args.push("-u".into()); }
+        if a { args.push("-a".into()); }
+        let (class, stdout, _) = run_capture(&bin("max_clique_gen"), &args, csv.as_bytes(), 60);
+        st.hit(&format!("exit.{}", class));
+        st.hit(&format!("flags.u{}a{}", u as u8, a as u8));
+        let edges_field = edges.iter().map(|(x, y)| format!("{}>{}", hex(x.as_bytes()), hex(y.as_bytes()))).collect::<Vec<_>>().join(",");
+        if class != "ok" { writeln!(out, "C16|clique|{}|{}|{}|{}|-||-", u as u8, a as u8, edges_field, class).unwrap(); continue; }
+        match parse_text(&stdout, None) {
+            Parsed::Ok(pf) => {
+                // what the real solver lists (vertex sets), when every row is fully determined
+                let solver = match solver_true_sets(&stdout) {
+                    Some(rows) if rows.iter().all(|r| !r.contains(&"ANY".to_string())) => {
+                        let s = rows.iter().map(|r| {
+                            let mut v: Vec<String> = r.iter().map(|nm| hex(nm.as_bytes())).collect();
+                            v.sort();
+                            v.join(".")
+                        }).collect::<Vec<_>>().join(";");
+                        if s.is_empty() { ";".to_string() } else { s }
+                    }
+                    _ => "-".to_string(),
+                };
+                writeln!(out, "C16|clique|{}|{}|{}|ok|{}|{}|{}", u as u8, a as u8, edges_field, ser_real(&pf.bdd), names_table(&pf), solver).unwrap();
+            }
+            _ => { writeln!(out, "C16|clique|{}|{}|{}|ok|ERR||-", u as u8, a as u8, edges_field).unwrap(); }
+        }
+    }
+}
